@@ -232,6 +232,11 @@ where
                 let op_idx = find_op_of_comma(&res).ok_or_else(|| {
                     exerr!("could not find operator for comma, could be operator with more than 2 args (not supported), missing operator, or paren mismatch",)
                 })?;
+                if depths_of_additional_parens.last() == Some(&(paren_depth - 1)) {
+                    return Err(exerr!(
+                        "second comma in one pair of parentheses, operators with more than 2 args are not supported",
+                    ));
+                }
                 let op_at_comma = mem::replace(&mut res[op_idx], ParsedToken::Paren(Paren::Open));
                 depths_of_additional_parens.push(paren_depth - 1);
                 res.push(ParsedToken::Paren(Paren::Close));
